@@ -202,3 +202,15 @@ Example C08_example_tie :
                      {| sp_id := 3; sp_orgs := [org 2 g] |} ];
       p_last := 9; p_assign := [(7, 5)] |}, Ok tt).
 Proof. vm_compute. reflexivity. Qed.
+
+(* ==== added by agent "actbodies": the distance the speciation model calls ([compat_float]) is the value the
+   source code of Genome.compatLinear / compatFast -- translated on every run into gen/CompatBodies.v -- returns,
+   for every pair of gene lists (the first one of a length that fits in a Go int) ==== *)
+From NeatModel Require CompatBodies CompatBodiesAgree.
+Theorem C08_distance_is_the_translated_source :
+  forall (linear : bool) (dc ec mc : float) (a b : list (Z * float)),
+    (Z.of_nat (length a) < 2 ^ 63)%Z ->
+    (if linear then CompatBodies.gen_compat_linear dc ec mc a b else CompatBodies.gen_compat_fast dc ec mc a b) =
+    Ok (compat_float linear dc ec mc a b).
+Proof. exact CompatBodiesAgree.gen_compat_returns_compat_float. Qed.
+Print Assumptions C08_distance_is_the_translated_source.
